@@ -117,6 +117,13 @@ func run(r *report.Run, cc *sim.ChainCase) *report.Failure {
 				tr.events["validator-added-mid-epoch"] = true
 			}
 		}
+		if ce := l.Sp.CurrentEpoch(post); ce > l.Sp.CurrentEpoch(pre) {
+			// the set of validators active in the NEXT epoch differs from the current one although its size is the same
+			a, b := l.Sp.ActiveIndices(post, ce), l.Sp.ActiveIndices(post, ce+1)
+			if len(a) == len(b) && fmt.Sprint(a) != fmt.Sprint(b) {
+				tr.events["active-set-changes-at-constant-size"] = true
+			}
+		}
 		if post.Fork > pre.Fork {
 			tr.events["upgrade"] = true
 			for f := pre.Fork + 1; f <= post.Fork; f++ {
@@ -250,7 +257,8 @@ func tourDepositBurst(rt *rapid.T) *sim.ChainCase {
 	fork := rapid.SampledFrom([][4]uint64{{1, far, far, far}, {1, 2, 2, 3}, {2, 2, 3, 4}}).Draw(rt, "forks")
 	o := map[string]uint64{"SLOTS_PER_EPOCH": 4, "TARGET_COMMITTEE_SIZE": 2, "MAX_COMMITTEES_PER_SLOT": 2, "SHUFFLE_ROUND_COUNT": 3,
 		"SLOTS_PER_HISTORICAL_ROOT": 8, "EPOCHS_PER_HISTORICAL_VECTOR": 8, "EPOCHS_PER_SLASHINGS_VECTOR": 4, "EPOCHS_PER_ETH1_VOTING_PERIOD": 1,
-		"MAX_SEED_LOOKAHEAD": 1, "MIN_PER_EPOCH_CHURN_LIMIT": 4, "CHURN_LIMIT_QUOTIENT": 4, "MAX_PER_EPOCH_ACTIVATION_CHURN_LIMIT": 8,
+		"MAX_SEED_LOOKAHEAD": 1, "MIN_PER_EPOCH_CHURN_LIMIT": rapid.SampledFrom([]uint64{1, 1, 4}).Draw(rt, "churn"), "CHURN_LIMIT_QUOTIENT": 32, "MAX_PER_EPOCH_ACTIVATION_CHURN_LIMIT": 8,
+		"SHARD_COMMITTEE_PERIOD": 0, "MAX_VOLUNTARY_EXITS": 16,
 		"SYNC_COMMITTEE_SIZE": 4, "EPOCHS_PER_SYNC_COMMITTEE_PERIOD": 2, "MAX_DEPOSITS": rapid.SampledFrom([]uint64{1, 2, 16}).Draw(rt, "max_deposits"), "MAX_ATTESTATIONS": 128}
 	cc := &sim.ChainCase{Profile: "full", Config: sim.ConfigCase{Family: "custom", ForkEpochs: fork, Override: o}}
 	cc.Genesis = sim.GenesisCase{N: 16, GenesisTime: 1000, Eth1Seed: rapid.Uint64().Draw(rt, "eth1_seed")}
@@ -280,6 +288,11 @@ func tourDepositBurst(rt *rapid.T) *sim.ChainCase {
 			continue
 		}
 		b := blk()
+		// steady churn: with a churn limit of 1, one queued activation and one exit take effect per epoch, so the
+		// active set changes while its size stays the same
+		if s >= 6 {
+			b.NExits = rapid.SampledFrom([]int{0, 0, 1, 1, 2}).Draw(rt, "n_exits")
+		}
 		if s == 9 || s == 14 {
 			b.Queue = append(b.Queue, sim.DepPlan{Kind: 0, Amount: 0, Eth1: true}, sim.DepPlan{Kind: 1, Amount: 1, Target: s})
 		}
@@ -332,7 +345,7 @@ func TestCheck(t *testing.T) {
 	if r.Replay != "" {
 		return
 	}
-	r.Mandatory("shared-cache-conflicting-deposit-histories", "shared-cache-sibling-behind-same-history", "shared-cache-same-deposits-reordered", "event:deposit-added-validator", "event:validator-added-mid-epoch", "event:upgrade", "event:sync-rotation", "reload-continuation", "fork-sibling-advanced")
+	r.Mandatory("shared-cache-conflicting-deposit-histories", "shared-cache-sibling-behind-same-history", "shared-cache-same-deposits-reordered", "event:deposit-added-validator", "event:validator-added-mid-epoch", "event:upgrade", "event:sync-rotation", "event:active-set-changes-at-constant-size", "reload-continuation", "fork-sibling-advanced")
 	n := 2
 	if r.Thorough() {
 		n = 10
